@@ -89,6 +89,9 @@ func (g *gen) funcInChanOut(name string, typ types.Type) (inTyp, outTyp types.Ty
 	if !ok {
 		return nil, nil, fmt.Errorf("%s, the result, %s, is not of type chan", name, g.TypeString(resType))
 	}
+	if chanType.Dir() == types.SendOnly {
+		return nil, nil, fmt.Errorf("%s, the result, %s, is a send only channel, which cannot be received from", name, g.TypeString(resType))
+	}
 	return params.At(0).Type(), chanType.Elem(), nil
 }
 
@@ -104,7 +107,8 @@ func (g *gen) Generate(typs []types.Type) error {
 	}
 	g.Generating(typs...)
 	p := g.printer
-	cc := types.NewChan(types.RecvOnly, types.NewChan(types.RecvOnly, c))
+	// fmap returns a channel of whatever g returns, so the channels that are joined have the direction of g's result.
+	cc := types.NewChan(types.RecvOnly, typs[1].(*types.Signature).Results().At(0).Type())
 	t0str := g.TypeString(typs[0])
 	t1str := g.TypeString(typs[1])
 	astr := g.TypeString(a)
